@@ -679,6 +679,38 @@ def gen_valid_calls(rng):
     return tbl_idx, [one() for _ in range(rng.randint(1, 6))]
 
 
+def tag_name_cases(jsonrpc):
+    """Requests whose params carry a ``__model__`` tag, for every tag name the implementation itself
+    knows (its tag registry and everything mopidy.models exports, read at run time), their
+    wrong-case / padded variants, unknown names and non-string tags - bare, with fields, nested, as
+    notification and inside a batch."""
+    from mopidy import models
+
+    names = set(getattr(models, "__all__", ())) | {n for n in dir(models) if not n.startswith("_")}
+    for attr in dir(jsonrpc):
+        reg = getattr(jsonrpc, attr)
+        if isinstance(reg, dict) and reg and all(isinstance(k, str) for k in reg) and any(k in names for k in reg):
+            names |= set(reg)
+    tags = []
+    for n in sorted(names):
+        tags += [n, n.lower(), n.upper(), n + " ", "models." + n]
+    tags += ["", "Bogus", "__model__", "object", "dict", "BaseModel", "é"]
+    tags = list(dict.fromkeys(tags)) + [5, None, [], {}, True, 1.5, ["Artist"], {"__model__": "Artist"}]
+    out = []
+    for tag in tags:
+        bare = {"__model__": tag}
+        full = {"__model__": tag, "uri": "u"}
+        reqs = [
+            {"jsonrpc": "2.0", "id": 1, "method": "o.nargs", "params": [bare]},
+            {"jsonrpc": "2.0", "id": "t", "method": "o.nargs", "params": {"value": full}},
+            {"jsonrpc": "2.0", "method": "o.count", "params": [[{"a": bare}]]},
+            [{"jsonrpc": "2.0", "id": 1, "method": "o.count"}, {"jsonrpc": "2.0", "id": 2, "method": "o.nargs", "params": [full, bare]},
+             {"jsonrpc": "2.0", "id": 3, "method": "o.count"}],
+        ]
+        out += [(0, enc(r).encode("utf-8"), "tag_names") for r in reqs]
+    return out
+
+
 def gen_bytes(rng):
     k = rng.weighted([("random", 2), ("mutated", 5), ("special", 2)])
     if k == "random":
@@ -744,7 +776,7 @@ def g_log(log):
 def wrapper_stage(chk, jsonrpc):
     quick = chk.tier == "quick"
     n_struct, n_json, n_bytes = (1400, 400, 700) if quick else (24000, 6000, 10000)
-    cases = load_corpus()
+    cases = load_corpus() + tag_name_cases(jsonrpc)
     rng = chk.rng
     for _ in range(n_struct):
         v, dist = gen_structured(rng)
